@@ -41,18 +41,23 @@ def lreluLut (signed : Bool) (zpIn zpOut idScale idShift alphaScalar alphaScale 
 
 /-! ## HardSwish -/
 
-/-- loop body of `convert_hardswish_to_lut` given the two 16-bit multipliers -/
-def hardswishEntry (signed : Bool) (zpIn zpOut outScale16 outShift reluScale16 reluShift x : Int) : R := do
-  let inputValue := x - zpIn
-  let inputValueHires := inputValue * 128
-  let inputValuePreshift ← saturatingRoundingMul16 inputValueHires outScale16
-  -- relu_value = np.int16(input_value_hires): the value passed the int16 assert just above
+/-- the "relu-ish multiplier" part of the loop body of `convert_hardswish_to_lut`: from
+    `relu_value = np.int16(input_value_hires)` to `relu_value = (relu_value + (1 << 15)) >> 1` -/
+def hardswishRelu (inputValueHires reluScale16 reluShift : Int) : R := do
+  -- relu_value = np.int16(input_value_hires): the value passed the int16 assert of the preceding call
   let relu := inputValueHires
   let relu ← if reluShift < 31 then shiftLeft16 relu (30 - reluShift) else pure relu
   let relu ← saturatingRoundingMul16 relu reluScale16
   let relu ← if reluShift < 31 then shiftLeft16 relu 1 else pure relu
   let relu ← if reluShift > 31 then roundingDivideByPot relu (reluShift - 31) else pure relu
-  let relu := (relu + 32768) / 2                        -- (relu_value + (1 << 15)) >> 1
+  return (relu + 32768) / 2                             -- (relu_value + (1 << 15)) >> 1
+
+/-- loop body of `convert_hardswish_to_lut` given the two 16-bit multipliers -/
+def hardswishEntry (signed : Bool) (zpIn zpOut outScale16 outShift reluScale16 reluShift x : Int) : R := do
+  let inputValue := x - zpIn
+  let inputValueHires := inputValue * 128
+  let inputValuePreshift ← saturatingRoundingMul16 inputValueHires outScale16
+  let relu ← hardswishRelu inputValueHires reluScale16 reluShift
   let lutResult ← saturatingMul16 relu inputValuePreshift
   let shift := 31 - outShift
   let shift := if shift < 0 then -shift else 0
